@@ -1,10 +1,22 @@
-"""translator hook for the Dyn properties (filled in by translate/t_dyn.py)"""
-THEOREMS_C04 = []
-THEOREMS_C05 = []
-THEOREMS_C07 = []
-THEOREMS_C10 = []
-EXTRA = []
+"""translator hook of the Dyn properties (C04, C05, C07, C10): translate/t_dyn.py regenerates lean/Sympler/Gen/DynGen.lean (pair kernels
+with guards and own-cutoff test, integrator kernels, order of Controller::integrate); Props/DynBridge.lean proves that the generated
+functions ARE the functions of the hand-written model Sympler/Dyn.lean."""
+import os
+import common
+
+B = "Sympler.Dyn."
+THEOREMS_C04 = [B + t for t in ["Bridge_pair_first", "Bridge_pair_second", "Bridge_pair_guards", "Bridge_pair_cutoff"]]
+THEOREMS_C05 = [B + t for t in ["Bridge_vv_step1", "Bridge_vv_step2", "Bridge_euler_step1", "Bridge_step_order"]]
+THEOREMS_C07 = [B + t for t in ["Bridge_pair_first", "Bridge_pair_second", "Bridge_pair_guards", "Bridge_pair_cutoff"]]
+THEOREMS_C10 = [B + t for t in ["Bridge_pair_guards"]]
+EXTRA = ["Props.DynBridge"]
+NAME = "translator t_dyn (pair kernels of FPairVels/FPairScalar/FPairVector/PairParticleScalar/PairParticleVector with guards and cutoff test, velocity-Verlet and Euler integrator kernels, call order of Controller::integrate)"
 
 
 def translate(ctx):
-    return True
+    try:
+        import t_dyn
+        common.write_if_changed(os.path.join(common.LEAN, "Sympler/Gen/DynGen.lean"), t_dyn.generate(common.REPO))
+        return ctx.oblige(NAME, True)
+    except Exception as ex:
+        return ctx.oblige(NAME, False, repr(ex))
